@@ -40,10 +40,18 @@ var zzC02Templates = []string{
 // (sorted by the parser's order), text (whitespace-collapsed), doctype.
 func zzTreeSig(nodes []*html.Node) string {
 	var sb strings.Builder
+	text := ""
+	flush := func() {
+		if text != "" {
+			sb.WriteString("[" + text + "]")
+			text = ""
+		}
+	}
 	var walk func(n *html.Node)
 	walk = func(n *html.Node) {
 		switch n.Type {
 		case html.ElementNode:
+			flush()
 			sb.WriteString("<" + n.Data)
 			for _, a := range n.Attr {
 				sb.WriteString(" " + a.Key + "=" + a.Val)
@@ -52,13 +60,14 @@ func zzTreeSig(nodes []*html.Node) string {
 			for c := n.FirstChild; c != nil; c = c.NextSibling {
 				walk(c)
 			}
+			flush()
 			sb.WriteString("</" + n.Data + ">")
 		case html.TextNode:
-			t := strings.Join(strings.Fields(n.Data), " ")
-			if t != "" {
-				sb.WriteString("[" + t + "]")
-			}
+			// adjacent text runs (separated by comments only) are one run;
+			// white space is insignificant
+			text += strings.Join(strings.Fields(n.Data), "")
 		case html.DoctypeNode:
+			flush()
 			sb.WriteString("<!doctype " + n.Data + ">")
 		case html.DocumentNode:
 			for c := n.FirstChild; c != nil; c = c.NextSibling {
@@ -69,6 +78,7 @@ func zzTreeSig(nodes []*html.Node) string {
 	for _, n := range nodes {
 		walk(n)
 	}
+	flush()
 	return sb.String()
 }
 
@@ -144,8 +154,7 @@ func VerifC02_Text() {
 		if strings.TrimSpace(d) == "" {
 			return
 		}
-		zzAssert(zzContains(out, esc), "C02.text.between-siblings")
-		zzAssert(zzTagOpens(out) == 6, "C02.text.no-extra-markup")
+		zzAssert(zzSquash(out) == zzSquash("<p><b></b>"+esc+"<i></i></p>"), "C02.text.between-siblings")
 	case 2:
 		zzAssert(out == `<p title="`+html.EscapeString(strings.TrimSpace(d))+`"></p>`+"\n" || out == `<p title="`+esc+`"></p>`+"\n", "C02.text.attribute")
 		zzAssert(out == `<p title="`+esc+`"></p>`+"\n", "C02.text.attribute-untrimmed")
@@ -184,10 +193,8 @@ func VerifC02_Interp() {
 		}
 		zzAssert(out == "<p>"+html.EscapeString(whole)+"</p>\n", "C02.interp.text-is-neighbours-plus-value")
 	case 1:
-		whole := strings.TrimSpace(pre + "{{ v }}" + post)
-		_ = whole
-		zzAssert(zzContains(out, html.EscapeString(val)), "C02.interp.attr-contains-value")
 		zzAssert(zzTagQuotes(out) == 2, "C02.interp.attr-one-value")
+		zzAssert(out == `<p title="`+html.EscapeString(pre+val+post)+`"></p>`+"\n", "C02.interp.attr-is-neighbours-plus-value")
 	case 2:
 		if val == "" {
 			return
